@@ -111,6 +111,8 @@ pub trait ExSeek {
             (*final(self)).scontent() == (*old(self)).scontent(),
             (*final(self)).sreliable() == (*old(self)).sreliable(),
             (*final(self)).sops() == (*old(self)).sops() + 1,
+            // std: "If the seek operation completed successfully, this method returns the new position from the start of the stream"
+            r is Ok ==> r->Ok_0 == (*final(self)).spos(),
             r is Ok ==> (*final(self)).sfail() == (*old(self)).sfail() && match pos {
                 SeekFrom::Start(n) => (*final(self)).spos() == n,
                 SeekFrom::End(d) => d == 0 ==> (*final(self)).spos() == (*old(self)).slen(),
